@@ -910,9 +910,12 @@ def main(d):
     with open(os.path.join(d, 'case.json')) as f:
         case = json.load(f)
     h = case['handler']
-    if h not in HANDLERS:
-        # handlers of other properties live next to their harness
-        __import__('harness.replay_more')
+    if h == 'c13':
+        from harness import c13
+        HANDLERS['c13'] = c13.replay
+    if h == 'c12':
+        from harness import c12
+        HANDLERS['c12'] = c12.replay
     violated, msg = HANDLERS[h](d, case)
     print('property %s, %s' % (case['property'], case.get('what', '')))
     print('observed: %s' % msg)
